@@ -16,7 +16,8 @@
     box of the first operand, product = concatenation;
   * `Translate` / `Rotate` evaluate the motion per parameter row and return ONE BOX PER ROW when the
     motion depends on parameters (the argument `ρ` of `bbox` selects that row; every other node
-    ignores it).  The inner box is still the box over all rows.
+    ignores it).  The inner box is still the box over all rows.  Union / intersection / product reduce
+    such per-row boxes of an operand to the common box of all rows before combining them.
 -/
 import TPV.Model.Geom
 
@@ -90,7 +91,24 @@ def bboxRotate (bd : List (K × K)) (m c : List K) : Option (List (K × K)) :=
 def bboxTranslate (bd : List (K × K)) (t : List K) : Option (List (K × K)) :=
   if t.length = bd.length then some (List.zipWith (fun b s => (b.1 + s, b.2 + s)) bd t) else none
 
-/-- **`bounding_box(params)`** for the rows `ρs`; for motion nodes: the box returned for row `ρ`. -/
+/-- axis-wise hull of a non-empty list of boxes of equal dimension (`Domain._common_bounding_box`: the one box
+    that contains the boxes of all parameter rows) -/
+def hullBoxes : List (List (K × K)) → Option (List (K × K))
+  | [] => none
+  | [b] => some b
+  | b :: bs =>
+    match hullBoxes bs with
+    | some h => if b.length = h.length then some (List.zipWith (fun x y => (minK x.1 y.1, maxK x.2 y.2)) b h) else none
+    | none => none
+
+/-- the common box of an operand over all supplied rows (`f ρ` = the operand's box for row `ρ`) -/
+def rowsHull (f : Env K → Option (List (K × K))) (ρs : List (Env K)) : Option (List (K × K)) :=
+  match mapOpt f ρs with
+  | some l => hullBoxes l
+  | none => none
+
+/-- **`bounding_box(params)`** for the rows `ρs`; for motion nodes: the box returned for row `ρ`.
+    Union, intersection and product first reduce the boxes of an operand to the common box of all rows. -/
 def bbox : Dom K → List (Env K) → Env K → Option (List (K × K))
   | .interval _ lb ub, ρs, _ =>
     match mapOpt (eval1 lb) ρs, mapOpt (eval1 ub) ρs with
@@ -122,20 +140,20 @@ def bbox : Dom K → List (Env K) → Env K → Option (List (K × K))
         some [(x0 - rm, x1 + rm), (y0 - rm, y1 + rm), (z0 - rm, z1 + rm)]
       | _, _, _, _ => none
     | _, _ => none
-  | .union a b, ρs, ρ =>
-    match bbox a ρs ρ, bbox b ρs ρ with
+  | .union a b, ρs, _ =>
+    match rowsHull (bbox a ρs) ρs, rowsHull (bbox b ρs) ρs with
     | some ba, some bb =>
       if ba.length = bb.length then some (List.zipWith (fun x y => (minK x.1 y.1, maxK x.2 y.2)) ba bb) else none
     | _, _ => none
-  | .inter a b, ρs, ρ =>
-    match bbox a ρs ρ, bbox b ρs ρ with
+  | .inter a b, ρs, _ =>
+    match rowsHull (bbox a ρs) ρs, rowsHull (bbox b ρs) ρs with
     | some ba, some bb =>
       if ba.length = bb.length then some (List.zipWith (fun x y => (maxK x.1 y.1, minK x.2 y.2)) ba bb) else none
     | _, _ => none
   | .cut a _, ρs, ρ => bbox a ρs ρ
-  | .prod a b, ρs, ρ =>
+  | .prod a b, ρs, _ =>
     -- constant product, or the partner's coordinates are supplied with the parameters
-    match bbox a ρs ρ, bbox b ρs ρ with
+    match rowsHull (bbox a ρs) ρs, rowsHull (bbox b ρs) ρs with
     | some ba, some bb => some (ba ++ bb)
     | _, _ => none
   | .translate _ d t, ρs, ρ =>
@@ -189,24 +207,16 @@ def bboxRotate3 (bd : List (K × K)) (m c : List K) : Option (List (K × K)) :=
 
 /-! ### shape of the result for several parameter rows -/
 
-/-- does some motion of the expression depend on parameters?  Then `bounding_box` of that node
-    returns one box per row when called with two or more rows. -/
+/-- does `bounding_box` return one box per row when called with two or more rows?  (a motion that depends
+    on parameters, seen through outer motions, cuts and boundaries; union / intersection / product reduce
+    their operands' boxes to the common box) -/
 def Dom.perRow : Dom K → Bool
   | .interval .. | .par .. | .tri .. | .circle .. | .sphere .. => false
-  | .union a b | .inter a b | .prod a b => a.perRow || b.perRow
+  | .union .. | .inter .. | .prod .. => false
   | .cut a _ => a.perRow
   | .translate _ d t => !t.args.isEmpty || d.perRow
   | .rotate _ d m c => !m.args.isEmpty || !c.args.isEmpty || d.perRow
   | .bdry d | .bdryL d | .bdryR d => d.perRow
-
-/-- is a per-row operand combined by union / intersection / product?  These index their operands'
-    boxes as flat vectors; with two or more rows the call raises. -/
-def Dom.rowsClash : Dom K → Bool
-  | .interval .. | .par .. | .tri .. | .circle .. | .sphere .. => false
-  | .union a b | .inter a b | .prod a b => a.perRow || b.perRow || a.rowsClash || b.rowsClash
-  | .cut a _ => a.rowsClash
-  | .translate _ d _ | .rotate _ d _ _ => d.rowsClash
-  | .bdry d | .bdryL d | .bdryR d => d.rowsClash
 
 /-- the whole call `D.bounding_box(params)`: `inl box` = flat result, `inr boxes` = one box per row;
     `none` = rejected -/
@@ -215,7 +225,6 @@ def bboxCall (D : Dom K) (ρs : List (Env K)) : Option (List (K × K) ⊕ List (
   | [] => none
   | ρ :: rest =>
     if rest.isEmpty || !D.perRow then (bbox D ρs ρ).map .inl
-    else if D.rowsClash then none
     else (mapOpt (bbox D ρs) ρs).map .inr
 
 /-! ### consumers -/
